@@ -81,9 +81,25 @@ func toFloat64Generic(v any) (float64, bool) {
 	switch n := v.(type) {
 	case int:
 		return float64(n), true
+	case int8:
+		return float64(n), true
+	case int16:
+		return float64(n), true
 	case int32:
 		return float64(n), true
 	case int64:
+		return float64(n), true
+	case uint:
+		return float64(n), true
+	case uint8:
+		return float64(n), true
+	case uint16:
+		return float64(n), true
+	case uint32:
+		return float64(n), true
+	case uint64:
+		return float64(n), true
+	case float32:
 		return float64(n), true
 	case float64:
 		return n, true
